@@ -1265,7 +1265,10 @@ def _ser_object(self, t: dict, v):
         if f.get("none_as_undefined") and val[0] == "none":
             continue
         if o.exclude_none and val[0] == "none":
-            alts = union_alts(ftype) if ftype["k"] in ("opt", "union") else [ftype]
+            ft_ = ftype
+            while ft_["k"] == "ann":
+                ft_ = ft_["of"]
+            alts = union_alts(ft_) if ft_["k"] in ("opt", "union") else [ft_]
             if any(a["k"] == "none" for a in alts) and any(a["k"] != "none" for a in alts):
                 continue
             raise Unspecified("exclude_none on a non-Optional field holding None")
@@ -1287,7 +1290,10 @@ def _ser_object(self, t: dict, v):
         res = m["value"] if m["kind"] == "const" else vals.get(m["field"])
         if res is None:
             raise Mismatch
-        ralts = union_alts(m["ret"]) if m["ret"]["k"] in ("opt", "union") else [m["ret"]]
+        rt = m["ret"]
+        while rt["k"] == "ann":  # is_union_of looks through Annotated
+            rt = rt["of"]
+        ralts = union_alts(rt) if rt["k"] in ("opt", "union") else [rt]
         if res[0] == "undef":
             if any(a["k"] == "undefined" for a in ralts):
                 continue
